@@ -96,7 +96,11 @@ def run(name, ids, tier='quick'):
         env = dict(os.environ, VERIF_REPO=d)
         for pid in ids:
             t0 = time.time()
+            evp = os.path.join(HERE, 'evidence', '%s.json' % pid)
+            saved = open(evp).read() if os.path.exists(evp) else None
             rc, out = sh('./check %s --tier %s' % (pid, tier), cwd=HERE, env=env, timeout=7200)
+            if saved is not None:
+                open(evp, 'w').write(saved)      # the evidence of a run against a seeded change is not kept
             lines = [l for l in out.splitlines() if l.startswith(('VIOLATION', 'OK ', 'KNOWN-FINDING'))]
             res[pid] = dict(exit=rc, tier=tier, wall_s=round(time.time() - t0, 1), lines=[l[:400] for l in lines][:6],
                             caught=(rc != 0 and any(l.startswith('VIOLATION') for l in lines)))
